@@ -1,5 +1,6 @@
 use std::fs;
 use std::path::Path;
+use std::path::PathBuf;
 
 use action::all_action_types;
 use action::ActionContext;
@@ -26,7 +27,6 @@ use liwe::model::Key;
 use liwe::model::{self, InlineRange};
 
 use liwe::parser::Parser;
-use relative_path::RelativePath;
 
 use super::LspClient;
 use super::ServerConfig;
@@ -48,34 +48,41 @@ pub struct Server {
 }
 
 pub struct BasePath {
-    base_path: String,
+    // the library directory; URIs are built from and mapped back to file paths, so that names and
+    // base paths that need percent-encoding (spaces, non-ASCII, `%`, `#`) survive the round trip
+    base_path: PathBuf,
 }
 
 impl BasePath {
-    fn key_to_url(&self, key: &Key) -> Url {
-        Url::parse(&self.base_path)
-            .unwrap()
-            .join(&key.to_path())
-            .expect("to work")
+    fn new(base_path: &str) -> BasePath {
+        BasePath {
+            base_path: PathBuf::from(base_path),
+        }
     }
 
-    fn relative_to_full_path(&self, url: &str) -> Url {
-        Url::parse(&self.base_path)
-            .unwrap()
-            .join(&format!("{}.md", url.trim_end_matches(".md")))
-            .expect("to work")
+    fn path_to_url(&self, relative_path: &str) -> Url {
+        Url::from_file_path(self.base_path.join(relative_path)).expect("absolute library path")
+    }
+
+    fn key_to_url(&self, key: &Key) -> Url {
+        self.path_to_url(&key.to_path())
     }
 
     fn name_to_url(&self, key: &str) -> Url {
-        Url::parse(&format!("{}{}.md", self.base_path, key)).unwrap()
+        self.path_to_url(&format!("{}.md", key))
     }
 
     fn url_to_key(&self, url: &Url) -> Key {
-        Key::from_file_name(
-            &url.to_string()
-                .trim_start_matches(&self.base_path)
-                .to_string(),
-        )
+        url.to_file_path()
+            .ok()
+            .and_then(|path| {
+                path.strip_prefix(&self.base_path)
+                    .ok()
+                    .map(|relative| relative.to_string_lossy().to_string())
+            })
+            .map(|name| Key::from_file_name(&name))
+            // not a file of the library: no note has this key
+            .unwrap_or_else(|| Key::from_file_name(url.as_str()))
     }
 }
 
@@ -92,9 +99,7 @@ impl DatabaseContext for &Server {
 impl Server {
     pub fn new(config: ServerConfig) -> Server {
         Server {
-            base_path: BasePath {
-                base_path: format!("file://{}/", config.base_path),
-            },
+            base_path: BasePath::new(&config.base_path),
             database: Database::new(
                 config.state,
                 config.sequential_ids.unwrap_or(false),
@@ -253,9 +258,9 @@ impl Server {
             ))
         })
         .map(|url| {
-            let relative_url = RelativePath::new(&relative_to).join(url).to_string();
             GotoDefinitionResponse::Scalar(Location::new(
-                self.base_path.relative_to_full_path(&relative_url),
+                self.base_path
+                    .key_to_url(&Key::from_rel_link_url(&url, &relative_to)),
                 Range::default(),
             ))
         })
